@@ -1,4 +1,4 @@
-import LyModel.Yin.LemmasFuel
+import LyModel.Yin.LemmasExt
 /-!
 # C10 — printed schemas re-parse to the same module: the YIN route, generic statement layer
 
@@ -176,6 +176,40 @@ theorem yin_stmt_roundtrip_text (ns : List XNs) (hnsY : nsGet ns none = some yin
   intro cx E rest f a1 a2 a3 a4 a5 a6 a7 a8 a9
   obtain ⟨c', r1, r2, _⟩ := hall cx E rest f a1 a2 a3 a4 a5 a6 (by simpa [heightG, heightK] using a7) a8 a9
   exact ⟨c', by simpa [norm, normList] using r1, r2⟩
+
+/-- **`yin_ext_roundtrip`.**  For EVERY extension instance with `extOk` (`Yin/Ok.lean`: no nested instance in `ext->exts` — F86;
+    an argument iff the definition has one; a yin-element argument not white space only — F36; argument name an identifier other
+    than `xmlns`; no child flagged as YIN attribute / argument; every child `yinOk`) — without argument, with attribute argument,
+    or with the argument as child element `prefix:argname`; children to any depth — `yprp_extension_instance` prints
+    `<indent><prefix:name` followed by `body`, and `yin_parse_extension_instance`, entered behind the start-tag name, followed by
+    `lysp_ext_instance_resolve_argument` with the instance's definition, gives back the name, the argument byte for byte and — as
+    the substatements that are not YIN attribute / argument — exactly `normList kids`; the element is closed and `rest` untouched.
+    The fuel of `parseExtInst` (input length + 2) is shown sufficient inside.  `sameNs`: the verdict of the two `ly_resolve_prefix`
+    calls (the same prefix resolves to the same module). -/
+theorem yin_ext_roundtrip (ns : List XNs) (hnsY : nsGet ns none = some yinNsUri) (base : Nat) (hstab : NsStable base ns)
+    (sameNs : Bytes → Bytes → Bool) (hsame : ∀ p, sameNs p p = true) (fmt : Bool) (level : Nat)
+    (name : Bytes) (argname : Option Bytes) (ye : Bool) (argument : Option Bytes) (kids : List YStmt)
+    (hok : extOk ns (.mk name argname ye argument [] kids) = true) :
+    ∃ p n body, printExt fmt level false (.mk name argname ye argument [] kids) = indentOf fmt level ++ 60 :: (qualName (some p) n ++ body) ∧
+      ∀ (cx : XCtx) (E : List (Option Bytes × Bytes)) (rest : Bytes),
+        cx.status = .element → cx.pfx = some p → cx.name = n → cx.elems = (some p, n) :: E → cx.ns = ns → base ≤ E.length →
+        cx.elems.length + 1 + heightK kids ≤ LY_MAX_BLOCK_DEPTH → cx.inp = ignWs (body ++ rest) →
+        ∃ c' kids', parseExtInst cx = .ok (c', name, kids') ∧ c'.inp = 10 :: rest ∧ c'.status = .elemClose ∧ c'.elems = E ∧
+          ∃ kids'', resolveArgument sameNs name argname ye kids' = .ok (argument, kids'') ∧
+            kids''.filter (fun s => !isYinHidden s.flags) = normList kids := by
+  have hok' := hok
+  simp only [extOk, Bool.and_eq_true, List.isEmpty_nil, true_and] at hok'
+  obtain ⟨⟨⟨⟨⟨⟨hnameOk, _⟩, _⟩, han⟩, _⟩, hvis⟩, _⟩ := hok'
+  obtain ⟨p, n, hnm, hq, hbd⟩ := extName_parts ns name hnameOk
+  have hye : argname = none → ye = false := by intro h; subst h; simpa using han
+  refine ⟨p, n, extAfterName fmt level name argname ye argument kids, by rw [printExt_shape fmt level name argname ye argument kids hvis hye, hnm], ?_⟩
+  intro cx E rest hst hpfx hname he hns hb hh hinp
+  exact extInstOk ns hnsY base hstab sameNs hsame fmt level name argname ye argument kids hok cx p n E rest hnm hq hbd hst hpfx hname he hns
+    hb hh hinp
+
+/-- non-vacuity: `g:e2 "a <" { units "x"; }` with the argument as child element `g:t` is `extOk` -/
+example : extOk [⟨some [103], [117, 114, 110, 58, 103, 97], 1⟩, ⟨none, yinNsUri, 1⟩]
+    (.mk [103, 58, 101, 50] (some [116]) true (some [97, 32, 60]) [] [.mk sUnits (.kw sUnits) (some [120]) 0 []]) = true := by decide +kernel
 
 /-- conjunct (5): `yprp_stmt` prints nothing for a YIN-attribute child (`LY_STMT_NONE`), so it cannot come back -/
 theorem printStmt_attr_child (fmt : Bool) (level : Nat) (name : Bytes) (arg : Option Bytes) (fl : Nat) :
